@@ -325,7 +325,7 @@ def setup(desc, ctx, res, binary):
     if desc.get('iupac_ref'):
         # (C05 only) a few reference bases replaced by ambiguity codes after the samples were derived
         r2 = random.Random(desc['seed'] ^ 0x1c0de)
-        ref = [''.join(r2.choice('RYSWKMBDHV') if (ch in 'ACGTacgt' and r2.random() < 0.03) else ch for ch in c) for c in ref]
+        ref = [''.join(r2.choice('RYSWKMBDHVUu') if (ch in 'ACGTacgt' and r2.random() < 0.03) else ch for ch in c) for c in ref]
     # contig names: c<i>, or names as they occur in practice, in an order that is not their sorted order
     CPOOL = ['chr10', 'chr2', 'NC_000913.3', 'contig-5|x', 'scaffold.12', 'plasmid_pX', 'MT', 'chrUn_gl000220', '1', 'Z9']
     names = ['c%d' % i for i in range(len(ref))]
